@@ -110,7 +110,7 @@ pub fn run(id: &'static str, tier: Tier, seed: u64) -> Option<Evidence> {
             );
             ev.assume("OS schedules are sampled, not enumerated, and are not a function of the seed (the seed fixes workloads and yield patterns only)");
             ev.assume("realistic failure modes of a forbid(unsafe) crate here are lock-discipline edits (try_lock, lock released between metric and terminator, per-thread buffers), which heavy contention exposes quickly");
-            let c = StressCampaign { name: "stress-shared-client", sinks: &[StressSink::Spy, StressSink::Spy, StressSink::Unix, StressSink::Udp], judge_errors: false };
+            let c = StressCampaign { name: "stress-shared-client", sinks: &[StressSink::Spy, StressSink::Spy, StressSink::Unix, StressSink::Udp, StressSink::QueuedSpy], judge_errors: false };
             if driver::run_random(&c, &ev, &ctx, scale(tier.pick(300, 3_000)), 2) {
                 let bf = sockets::BlockedFlushCampaign { name: "unix-flush-behind-blocked-emit" };
                 driver::run_random(&bf, &ev, &ctx, scale(tier.pick(6, 60)), 4);
@@ -441,7 +441,7 @@ fn pattern_enumeration(outcomes: &[StepOut], max_n: usize, caps: &[Option<usize>
                             }
                             ops.push(QOp::Step(*o));
                         }
-                        out.push(QueueCase { cap: *cap, handler, handler_first: n % 2 == 0, ops });
+                        out.push(QueueCase { cap: *cap, handler, handler_first: n % 2 == 0, direct_ctor: !handler && n % 3 == 0, ops });
                     }
                 }
             }
@@ -555,6 +555,8 @@ fn writer_campaigns(id: &str) -> Vec<(WriterCampaign, u32, u32)> {
                 (WriterCampaign::new("mlw-greedy-long", Rule::Greedy, Seam::Mlw, long), 30_000, 600_000),
                 (WriterCampaign::new("mlw-greedy-tinycap", Rule::Greedy, Seam::MlwTiny, gen_default(30, false)), 12_000, 200_000),
                 (WriterCampaign::new("spy-greedy", Rule::Greedy, Seam::Spy, long), 6_000, 150_000),
+                // a failed write must not make later datagrams less full than they have to be
+                (WriterCampaign::new("mlw-greedy-faults", Rule::Greedy, Seam::Mlw, gen_default(40, true)), 60_000, 800_000),
             ]
         }
         _ => vec![],
